@@ -12,14 +12,14 @@ Local Open Scope list_scope.
 
 Inductive res (A : Type) : Type :=
 | Ok (a : A)
-| Panic                    (* the `unwrap()` of resolve_ref on a ParseError *)
+| Fail                     (* the ParseError of CompoundSelector::append, reported as an error (dfe7d33) *)
 | Unmodelled.              (* outside the structural model of print + re-parse *)
 Arguments Ok {A} a.
-Arguments Panic {A}.
+Arguments Fail {A}.
 Arguments Unmodelled {A}.
 
 Definition res_bind {A B} (r : res A) (f : A -> res B) : res B :=
-  match r with Ok a => f a | Panic => Panic | Unmodelled => Unmodelled end.
+  match r with Ok a => f a | Fail => Fail | Unmodelled => Unmodelled end.
 
 Fixpoint res_all {A} (l : list (res A)) : res (list A) :=
   match l with
@@ -116,10 +116,10 @@ Definition glue_suffix (c : compound) (suf : text) : res compound :=
       | Pseudo n e ArgNone :: _ =>
           Ok (Comp (mkBase false (printed_elem c) (b_phs b) (b_classes b) (b_id b) (b_attrs b))
                    (set_last ps (fun p => Pseudo (p_name p ++ suf) (p_el p) (p_arg p))))
-      | Pseudo _ _ _ :: _ => Panic                 (* `)` followed by a name *)
+      | Pseudo _ _ _ :: _ => Fail                 (* `)` followed by a name *)
       | [] =>
           match rev (b_attrs b) with
-          | _ :: _ => Panic                        (* `]` followed by a name *)
+          | _ :: _ => Fail                        (* `]` followed by a name *)
           | [] =>
               match rev (b_classes b) with
               | _ :: _ => Ok (Comp (mkBase false (printed_elem c) (b_phs b) (set_last (b_classes b) (fun x => x ++ suf))
@@ -132,7 +132,7 @@ Definition glue_suffix (c : compound) (suf : text) : res compound :=
                       | _ :: _ => Ok (Comp (mkBase false (printed_elem c) (set_last (b_phs b) (fun x => x ++ suf)) [] None []) [])
                       | [] =>
                           match b_elem b with
-                          | Some e => if text_eqb e (str "*") then Panic       (* F3: `*` followed by a name *)
+                          | Some e => if text_eqb e (str "*") then Fail        (* `*` followed by a name *)
                                       else if plain_name e then Ok (Comp (mkBase false (Some (e ++ suf)) [] [] None []) [])
                                       else Unmodelled
                           | None => Ok (Comp (mkBase false (Some suf) [] [] None []) [])
